@@ -118,5 +118,10 @@ func (server *Server) SRem(conn *redis.Conn, key string, members []string) (*red
 	if err != nil {
 		return nil, err
 	}
-	return redis.NewIntegerMessage(set.Rem(members)), nil
+	removedMembers := set.Rem(members)
+	if len(set.Members()) == 0 {
+		// A set without members does not exist.
+		db.RemoveRecord(key)
+	}
+	return redis.NewIntegerMessage(removedMembers), nil
 }
